@@ -32,6 +32,7 @@ type HarnessCfg struct {
 	Note       string             `json:"note"`
 	Shrink     []string           `json:"shrink"` // names of shrink overlays this harness relies on (informational)
 	Workers    int                `json:"workers"`
+	MinMaxIte  bool               `json:"minmax_ite"` // math mode: encode min/max/abs as ite terms instead of forking (linear harnesses)
 
 	Bounds    map[string]int `json:"-"`
 	TimeoutMs int            `json:"-"`
